@@ -87,7 +87,7 @@ fn sample_gc(rng: &mut Rng, stress: bool) -> GcTemplate {
     if !stress {
         return GcTemplate::Default;
     }
-    match rng.below(12) {
+    match rng.below(14) {
         0 => GcTemplate::Default,
         1 => GcTemplate::FullEveryStep,
         2 | 3 => GcTemplate::OneInc,
@@ -102,7 +102,7 @@ fn sample_gc(rng: &mut Rng, stress: bool) -> GcTemplate {
             p: *rng.pick(&[30, 100]),
         },
         _ => GcTemplate::DefaultPlusForced {
-            p: *rng.pick(&[10, 50]),
+            p: *rng.pick(&[3, 10, 50]),
         },
     }
 }
@@ -184,12 +184,15 @@ pub fn workload(prop: &str, tier: Tier, rng: &mut Rng, index: u64) -> Workload {
                 workload::strs::generate(rng, if big { 40 } else { 24 }, 10, true)
             }
         }
-        "C06" => match index % 8 {
+        "C06" => match index % 10 {
             // small programs for the exhaustive cycle-start sweep
             0 | 1 => workload::gc::generate(rng, true),
             2..=5 => workload::gc::generate(rng, false),
             6 => workload::arr::generate(rng, 30),
-            _ => workload::strs::generate(rng, 24, 8, true),
+            7 => workload::strs::generate(rng, 24, 8, true),
+            // values in closures and in channels, collectors of several tasks
+            8 => workload::conc::generate(rng, workload::conc::ALL, false),
+            _ => workload::cap::generate(rng),
         },
         "C11" => match index % 4 {
             0 => workload::conc::generate(rng, &[workload::conc::Shape::MainLeavesEarly, workload::conc::Shape::FailingTask, workload::conc::Shape::RequestResponse], false),
@@ -310,8 +313,8 @@ pub fn runs(
             };
             let small = reference.steps <= 2_600 && !w.has_tasks && w.family == "gc";
             if small {
-                // exhaustive over the start point of a single cycle, crossed with four increment
-                // shapes (the last one is the production shape: everything in one call)
+                // exhaustive over the start point of a single cycle, crossed with five increment
+                // shapes
                 for t in 0..reference.steps {
                     for (mark, sweep) in [(1, 1), (u32::MAX, 1), (1, u32::MAX), (u32::MAX, u32::MAX)] {
                         specs.push(fixed(
@@ -328,9 +331,17 @@ pub fn runs(
                             1,
                         ));
                     }
+                    // fifth shape: forced start, then the production pacing code itself (one
+                    // process_gray / sweep call with its own byte budget before each instruction)
+                    specs.push(fixed(
+                        base(Budget::Const(neutral), GcTemplate::SingleStartThenDefault { start_at: t }),
+                        reference,
+                        "single-cycle-at-every-start-point",
+                        1,
+                    ));
                 }
                 exhaustive.push(format!(
-                    "single collection cycle at every start point of the {} instructions x 4 increment shapes",
+                    "single collection cycle at every start point of the {} instructions x 5 increment shapes",
                     reference.steps
                 ));
             }
@@ -512,7 +523,7 @@ pub fn n_cells(prop: &str, tier: Tier) -> u64 {
         ("C10", Tier::Thorough) => 192 * 4 + 3000,
         ("C07", Tier::Quick) => 240,
         ("C07", Tier::Thorough) => 2400,
-        ("C06", Tier::Quick) => 96,
+        ("C06", Tier::Quick) => 120,
         ("C06", Tier::Thorough) => 1200,
         (_, Tier::Quick) => 200,
         (_, Tier::Thorough) => 3000,
